@@ -375,6 +375,15 @@ func runC11(c *an.Ctx) {
 		for _, k := range an.CallsTo(fn, putPS) {
 			c.Check(an.FuncName(fn) == gov+".depositPenaltyStake", "confine|putPenaltyStake|"+an.FuncName(fn), "PenaltyStake records are written only by depositPenaltyStake", c.P.Rel(k.Pos()), "new writer of PenaltyStake records")
 		}
+		// the same writes spelled out in place (CacheDB.Put of the serialized record) instead of through the put helper
+		for _, k := range an.Calls(fn) {
+			if isRecordPut(k, "governance.TotalStake") && an.FuncName(fn) != gov+".putTotalStake" {
+				c.Check(allowTS[an.FuncName(fn)], "confine|putTotalStake|"+an.FuncName(fn), "TotalStake records are written only by depositTotalStake/withdrawTotalStake (and WithdrawOng, which may only move the time offset)", c.P.Rel(k.Pos()), "new writer of TotalStake records")
+			}
+			if isRecordPut(k, "governance.PenaltyStake") && an.FuncName(fn) != gov+".putPenaltyStake" {
+				c.Check(an.FuncName(fn) == gov+".depositPenaltyStake", "confine|putPenaltyStake|"+an.FuncName(fn), "PenaltyStake records are written only by depositPenaltyStake", c.P.Rel(k.Pos()), "new writer of PenaltyStake records")
+			}
+		}
 	}
 	stakeField := c.P.Field(gov + ".TotalStake.Stake")
 	if stakeField == nil {
@@ -394,12 +403,10 @@ func runC11(c *an.Ctx) {
 
 	// (4) guards
 	if fn := mustFunc(c, gov+".withdrawTotalStake"); fn != nil && stakeField != nil {
-		g := &an.Guard{Name: "Stake < stake", FailValue: an.ATrue, MatchValue: func(v ssa.Value) bool {
-			b, ok := v.(*ssa.BinOp)
-			return ok && b.Op == token.LSS && fieldOfLoad(b.X) == stakeField && b.Y == ssa.Value(fn.Params[3])
-		}}
-		v := an.Guarded(c.P, fn, []*an.Guard{g}, func(in ssa.Instruction) bool { return isCallTo(in, putTS) }, false)
-		c.Check(v.Holds && v.GuardSites == 1 && v.ActionSites == 1, "guard|withdrawTotalStake|stake-sufficient", "a total stake is reduced only when it is at least the amount withdrawn", c.P.Rel(fn.Pos()), v.Witness)
+		// Stake < amount, in any spelling; the record write is putTotalStake or the same Put written in place
+		gs := lessThanGuards("Stake < stake", func(v ssa.Value) bool { return fieldOfLoad(v) == stakeField }, func(v ssa.Value) bool { return v == ssa.Value(fn.Params[3]) })
+		v := an.Guarded(c.P, fn, gs, func(in ssa.Instruction) bool { return isCallTo(in, putTS) || isRecordPut(in, "governance.TotalStake") }, false)
+		c.Check(v.Holds && v.GuardSites == 1 && v.ActionSites >= 1, "guard|withdrawTotalStake|stake-sufficient", "a total stake is reduced only when it is at least the amount withdrawn", c.P.Rel(fn.Pos()), v.Witness)
 	}
 	vo := mustObj(c, "smartcontract/service/native/utils.ValidateOwner")
 	if vo != nil {
@@ -417,10 +424,8 @@ func runC11(c *an.Ctx) {
 	}
 	if fn := mustFunc(c, gov+".Withdraw"); fn != nil {
 		wup := c.P.Field(gov + ".AuthorizeInfo.WithdrawUnfreezePos")
-		g := &an.Guard{Name: "WithdrawUnfreezePos < pos", FailValue: an.ATrue, MatchValue: func(v ssa.Value) bool {
-			b, ok := v.(*ssa.BinOp)
-			return ok && b.Op == token.LSS && wup != nil && fieldOfLoad(b.X) == wup
-		}}
+		// WithdrawUnfreezePos < requested amount, in any spelling
+		gs := lessThanGuards("WithdrawUnfreezePos < pos", func(v ssa.Value) bool { return wup != nil && fieldOfLoad(v) == wup }, func(v ssa.Value) bool { return fieldOfLoad(v) != wup })
 		// the record update and the accumulation of the payout amount happen only on the covered edge
 		accAdds := map[ssa.Instruction]bool{}
 		for _, k0 := range an.CallsToReach(fn, putAI) {
@@ -434,7 +439,7 @@ func runC11(c *an.Ctx) {
 				}
 			}
 		}
-		v := an.Guarded(c.P, fn, []*an.Guard{g}, func(in ssa.Instruction) bool { return isCallTo(in, putAI) || accAdds[in] }, false)
+		v := an.Guarded(c.P, fn, gs, func(in ssa.Instruction) bool { return isCallTo(in, putAI) || accAdds[in] }, false)
 		c.Check(v.Holds && v.GuardSites == 1 && v.ActionSites >= 2 && len(accAdds) >= 1, "guard|Withdraw|unfrozen-sufficient", "a record is reduced and its amount added to the payout only when the requested amount is covered by the record's unfrozen pos", c.P.Rel(fn.Pos()), v.Witness)
 	}
 }
